@@ -237,7 +237,7 @@ def run(tier, replay=None):
     for mode in ("reader", "hash", "lattice"):
         samp = 1
         if mode == "lattice":
-            samp = 7 if tier == "quick" else 5
+            samp = 13 if tier == "quick" else 5
         g = run_tlc_sharded("MC_Neighbors", dict(constants={"Tier": tier, "Mode": mode, "Gen": True, "SAMPLE": samp,
                                                            "SALT": common.SEED % samp},
                                                  invariants=INVS + ["Emit"], properties=["FramesInOrder"]))
@@ -247,10 +247,10 @@ def run(tier, replay=None):
             raise common.MachineryError(f"no cases emitted in mode {mode}")
         cs = g.cases
         if mode == "reader" and tier == "quick":
-            cs = common.sample(cs, 600, salt=5)
+            cs = common.sample(cs, 300, salt=5)
         cases += cs
     rng = random.Random(common.SEED * 7919 + 5)
-    cases += gen_configs(rng, 24 if tier == "quick" else 300)
+    cases += gen_configs(rng, 16 if tier == "quick" else 300)
     results = common.pmap(run_case, cases, chunksize=4)
     sessions = []
     for sess, viol in results:
